@@ -78,6 +78,10 @@ class LibMixin:
 
     def l_np_zeros_like(self, node, st):
         v = self.eval(node.args[0], st)
+        if isinstance(v, Ref) and isinstance(st.obj(v), HArr2):
+            o = st.obj(v)
+            zero = {"int": zint(0), "real": z3.RealVal(0), "bool": z3.BoolVal(False)}[o.kind]
+            return st.alloc(HArr2(o.kind, z3.K(INT, z3.K(INT, zero)), o.n, o.m))
         kind = self.elem_kind(st, v)
         val = {"int": zint(0), "real": z3.RealVal(0), "bool": z3.BoolVal(False)}[kind]
         return self.new_filled(st, self.length_of(st, v), kind, val)
